@@ -470,6 +470,12 @@ func (p *prop) runBatch(c core.Case, w *core.Worker, res *core.Result, r *rand.R
 		}
 		pks = append(pks, pk{name, src.String(), ps})
 		m.MustWrite(filepath.Join(name, "types.go"), src.String())
+		// more than one source file per package (names sorting before and after types.go): declarations are looked
+		// up by position across the package's files
+		for _, fn := range []string{"a_helpers.go", "m_consts.go", "z_more.go"}[:1+r.Intn(3)] {
+			id := strings.TrimSuffix(fn, ".go")
+			m.MustWrite(filepath.Join(name, fn), fmt.Sprintf("package %s\n\n// %s is a hand-written helper.\nfunc %s() int {\n\treturn %d\n}\n\nconst K%s = %q\n%s", name, id, id, r.Intn(100), id, fn, strings.Repeat("\n// filler\n", r.Intn(40))))
+		}
 		entries = append(entries, "./"+name)
 	}
 	m.MustWrite("origin/origin.go", osrc.String())
